@@ -1405,6 +1405,19 @@ package badger
 //@   assert[current-file-not-picked] before return#5 : result == nil && ret0(MaxDiscard#1) >= vlog.maxFid
 //@   assert[nothing-to-discard] before return#1 : result == nil && ret0(MaxDiscard#1) == 0
 
+// header.DecodeFrom reads the fields in the order Encode wrote them (meta, user meta, key
+// length, value length, expiry), all through the hashing reader, and reports how many bytes it
+// consumed; any read error ends it.
+//@ func (*header).DecodeFrom
+//@   props C16 C20
+//@   light
+//@   assert[meta-first] before call ReadByte#2 : h.meta == ret0(ReadByte#1) && ret1(ReadByte#1) == nil
+//@   assert[then-user-meta] before call ReadUvarint#1 : h.userMeta == ret0(ReadByte#2) && ret1(ReadByte#2) == nil && arg0 == reader
+//@   assert[then-key-length] before call ReadUvarint#2 : h.klen == uint32(ret0(ReadUvarint#1)) && ret1(ReadUvarint#1) == nil && arg0 == reader
+//@   assert[then-value-length] before call ReadUvarint#3 : h.vlen == uint32(ret0(ReadUvarint#2)) && ret1(ReadUvarint#2) == nil && arg0 == reader
+//@   assert[then-expiry-and-length] before return#6 : h.expiresAt == ret0(ReadUvarint#3) && result0 == reader.bytesRead && result1 == nil
+//@   assert[errors-reported] before return : result1 != nil ==> result0 == 0
+
 // ---- reading log records back (C16) ----
 
 // safeRead.Entry: header, key and value pass through the hashing reader, the stored checksum
